@@ -14,6 +14,8 @@ CONSTANTS
   SampleMod = 1
   SampleRes = 0
   NearMod = 1
+  SliceMod = 1
+  SliceRes = 0
   MaxEdits = 3
   MaxMRecs = 3
 INVARIANTS DerivedMatch DerivedMiss DerivedProps DExport
